@@ -58,7 +58,9 @@ func VerifC02_SwapSingle() {
 	}
 	now, deadline := verifInt64("now"), verifInt64("deadline")
 	verifAssume(now >= 0 && now < 1<<40 && deadline < 1<<40)
-	ctx := e.ctx.WithBlockTime(time.Unix(now, 0))
+	// block times carry nanoseconds: the block may lie inside the deadline's second, just after it
+	nanos := int64(verifChoice("halfSecondLater", 2)) * 500000000
+	ctx := e.ctx.WithBlockTime(time.Unix(now, nanos))
 	msg := &types.MsgSwapOrder{
 		Input:      types.Input{Address: e.sender.String(), Coin: sdk.Coin{Denom: inDenom, Amount: inAmt}},
 		Output:     types.Output{Address: recStr, Coin: sdk.Coin{Denom: outDenom, Amount: outAmt}},
@@ -72,7 +74,7 @@ func VerifC02_SwapSingle() {
 	before := e.sheet(accts, denoms)
 	err, _ := e.verifDeliver(func() error { _, err := NewMsgServerImpl(e.k).SwapCoin(ctx, msg); return err })
 	after := e.sheet(accts, denoms)
-	if now > deadline {
+	if now > deadline || (now == deadline && nanos > 0) {
 		verifCover("deadline-passed")
 		verifAssert(err != nil, "order after its deadline is refused")
 	}
